@@ -45,6 +45,8 @@ def expr_src(e, nm):
         return f"-{A}"
     if op == "call2":
         return f"g({A}, {c}, {B})"
+    if op == "call2l":
+        return f"g({A}, 3, 5)"
     if op == "idx":
         return f"op.Squeeze(v[{c}:{c + 1}])"
     if op == "attr":
@@ -93,7 +95,7 @@ def program_src(prog, ret, scheme=0, fname="f"):
     lines = ["from typing import Tuple", "from onnxscript import script, INT64, BOOL", "from onnxscript import opset18 as op", ""]
     if uses(prog, "call"):
         lines += ["@script(default_opset=op)", "def h(u: INT64) -> INT64:", "    return u * 2 + 1", ""]
-    if uses(prog, "call2"):
+    if uses(prog, "call2") or uses(prog, "call2l"):
         lines += ["@script(default_opset=op)", "def g(x: INT64, k: int, y: INT64) -> INT64:", "    return x * k + y", ""]
     params = f"{nm['a']}: INT64, {nm['n']}: INT64"
     if uses(prog, "idx"):
